@@ -50,15 +50,15 @@ def method_src(prog, m):
                 recs.append("let dataj = rec::enc(&data);")
         else:
             recs.append("let dataj = serde_json::json!({\"t\":\"-\"});")
-        recs.append("let secondj = serde_json::json!({\"kind\":\"none\",\"text\":\"\",\"ok\":false});")
+        recs.append("let secondj = serde_json::json!({\"kind\":\"none\",\"text\":\"\",\"ok\":false,\"cf\":false});")
     elif m["on"] == "error":
         params.append("error: String")
         recs.append("let dataj = serde_json::json!({\"t\":\"-\"});")
-        recs.append("let secondj = serde_json::json!({\"kind\":\"error\",\"text\":error,\"ok\":false});")
+        recs.append("let secondj = serde_json::json!({\"kind\":\"error\",\"cf\":error.contains(\"callee failed\"),\"text\":error,\"ok\":false});")
     else:
         params.append("result: SubMsgResult")
         recs.append("let dataj = serde_json::json!({\"t\":\"-\"});")
-        recs.append("let secondj = serde_json::json!({\"kind\":\"result\",\"text\":rec::result_text(&result),\"ok\":result.is_ok()});")
+        recs.append("let secondj = serde_json::json!({\"kind\":\"result\",\"cf\":rec::result_text(&result).contains(\"callee failed\"),\"text\":rec::result_text(&result),\"ok\":result.is_ok()});")
     pay = PAYLOAD[m["payload"]]
     for n, t in pay:
         attr = "#[sv::payload(raw)] " if m["payload"] == "raw" else ""
@@ -86,7 +86,7 @@ def program_src(prog):
     mod = prog["id"].lower()
     o = []
     o.append("#[allow(dead_code, unused_variables, unused_imports, clippy::all)]\npub mod %s {\n" % mod)
-    o.append("    use sylvia::ctx::{InstantiateCtx, ReplyCtx};\n"
+    o.append("    use sylvia::ctx::{ExecCtx, InstantiateCtx, ReplyCtx};\n"
              "    use sylvia::cw_std::{BankMsg, Binary, CosmosMsg, DepsMut, Empty, Env, Reply, Response, StdError, SubMsg, SubMsgResult, Uint128, WasmMsg};\n"
              "    use sylvia::cw_utils::MsgInstantiateContractResponse;\n"
              "    use verif_rrt::{rec, serde_json, ContractError, Deps, HandlerErr, Nested, ReplyVt};\n\n"
@@ -97,6 +97,20 @@ def program_src(prog):
              "            Ok(Response::new())\n        }\n")
     for m in prog["methods"]:
         o.append(method_src(prog, m))
+    legacy = prog.get("family") == "legacy"
+    if not legacy:
+        # the transaction of the chain corpus (Chain.tla): build a sub-message with the generated builder of handler name `h`
+        # around the message `recv` describes, and return it
+        o.append("        #[sv::msg(exec)]\n"
+                 "        fn fire(&self, ctx: ExecCtx, h: String, recv: String, val: u32) -> Result<Response, ContractError> {\n"
+                 "            rec::touch(ctx.deps.storage, \"fire\");\n"
+                 "            let built = build(&h, &recv, val);\n"
+                 "            rec::chain_built(\"%s\", &h, &built);\n"
+                 "            match built {\n"
+                 "                Some(Ok((sm, _, _))) => Ok(Response::new().add_submessage(sm).set_data(b\"fire\".to_vec())),\n"
+                 "                Some(Err(e)) => Err(ContractError::Std(StdError::generic_err(e))),\n"
+                 "                None => Err(ContractError::Std(StdError::generic_err(\"no builder\"))),\n"
+                 "            }\n        }\n" % prog["id"])
     o.append("    }\n\n")
     o.append("    fn ids() -> Vec<(&'static str, u64)> {\n        vec![%s]\n    }\n\n" % ", ".join(
         '("%s", sv::%s)' % (h["h"], h["const"]) for h in prog["handlers"]))
@@ -120,7 +134,10 @@ def program_src(prog):
              "            \"ep\" => entry_points::reply(deps, env, reply).map_err(|e| verif_rrt::proj_err(&e)),\n"
              "            _ => <dyn sylvia::cw_multi_test::Contract<Empty, Empty>>::reply(&Ctr::new(), deps, env, reply).map_err(|e| verif_rrt::proj_anyhow(&e)),\n"
              "        }\n    }\n\n")
-    o.append("    pub fn vt() -> ReplyVt {\n        ReplyVt { id: \"%s\", ids, build, dispatch }\n    }\n}\n" % prog["id"])
+    boxed = "None" if legacy else "Some(boxed)"
+    if not legacy:
+        o.append("    fn boxed() -> Box<dyn sylvia::cw_multi_test::Contract<Empty, Empty>> {\n        Box::new(Ctr::new())\n    }\n\n")
+    o.append("    pub fn vt() -> ReplyVt {\n        ReplyVt { id: \"%s\", ids, build, dispatch, boxed: %s }\n    }\n}\n" % (prog["id"], boxed))
     return "".join(o)
 
 
